@@ -9,7 +9,7 @@ import numpy
 from lib import common as C
 
 PROP = "C08"
-PROPS_FILES = ["Props/C08.v"]
+PROPS_FILES = ["Props/C08.v", "Props/C08_log.v"]
 ASSUMPTIONS = [
   "exact arithmetic over Q in the model; the running code is compared to a relative 1e-9 on coordinates (it divides and multiplies doubles), "
   "exactly on counts, flags, strata and unchanged points; region membership on the running code within 1e-9 (DESIGN 7.0)",
@@ -748,6 +748,9 @@ def gen_search(rng):
     if rng.random() < 0.5:
       opts["seed"] = rng.randrange(10**6)
     inp.update(cons=[], opts=opts, n=rng.randint(0, 20), fixed=[])
+    if rng.random() < 0.3:   # log-uniform sampling (hyperparameter search): strictly positive bounds over several decades
+      lo = [10.0 ** rng.uniform(-8, 2) for _ in inp["bounds"]]
+      inp.update(bounds=[[l, l * 10.0 ** rng.uniform(0.01, 6)] for l in lo], log_sample=True)
   elif kind == "sampler_cons":
     if not D["cons"]:
       kind = "sampler"
@@ -899,6 +902,15 @@ def _oracle(kind, inp, dm, smp, geo, bounds, cons):
   w = wrap_fixed(d, fixed)
   if kind == "sampler":
     d.set_quasi_random_sampler_opts(dict(inp["opts"]))
+    if inp.get("log_sample"):   # exp(sample of the box [log lo, log hi]): inside [lo, hi] up to the rounding of log and exp
+      out = numpy.asarray(d.generate_quasi_random_points_in_domain(inp["n"], log_sample=True), dtype=float)
+      if out.shape != (inp["n"], len(bounds)):
+        return _fail(kind, inp, "log sampling: wrong number of points", list(out.shape), [inp["n"], len(bounds)])
+      for row in out:
+        for x, (lo, hi) in zip(row, bounds):
+          if not (lo * (1 - 1e-12) <= x <= hi * (1 + 1e-12)):
+            return _fail(kind, inp, "log sampling: point outside the bounds", [float(v) for v in row], bounds)
+      return None
     return _check_points(kind, inp, w.generate_quasi_random_points_in_domain(inp["n"]), inp["n"], bounds, [])
   if kind == "sampler_cons":
     d.force_hitandrun_sampling = bool(inp["force"])
